@@ -49,7 +49,7 @@ Theorem agree_is_spec_c02_run ops : forall st s,
 Proof.
   induction ops as [|o ops IH]; intros st s Hinv Habs Hwf; [reflexivity|].
   inversion Hwf as [|? ? Ho Hops]; subst.
-  destruct o as [w o_new | ds since limit latest o_ents o_next | ds limits o_pages | id at_ scope merged o_found o_parts o_del];
+  destruct o as [w o_new | ds since limit latest o_ents o_next | ds limits o_pages | id at_ scope merged o_found o_parts o_del | fam o_keys];
     cbn [agree_run spec_run].
   - (* write *)
     destruct (apply_wop_refines (fst v_fixed) st (sget s) w Ho Hinv Habs) as [Hinv' Habs'].
@@ -67,6 +67,7 @@ Proof.
     rewrite (Habs ds) in Hc.
     destruct (changes (get_ds st ds) since limit latest) as [out next].
     rewrite <- Hc. reflexivity.
+  - rewrite (IH _ _ Hinv Habs Hops). reflexivity.
   - rewrite (IH _ _ Hinv Habs Hops). reflexivity.
   - rewrite (IH _ _ Hinv Habs Hops). reflexivity.
 Qed.
